@@ -3,7 +3,7 @@ import vlib
 from vlib import Violation, qc, qc_mat, qc_vec, coq_list
 
 ID = "C04"
-GEN_UNITS = ["GridT", "GridCtor", "GridDerive", "ImageOpsT"]
+GEN_UNITS = ["GridT", "GridCtor", "GridDerive", "ImageOpsT", "SampleT"]
 PROPS_FILE = "Props/C04.v"
 PROPS_MOD = "Props.C04"
 COQ_TARGETS = ["Props/C04.vo", "Base/QcCmp.vo", "Model/ImageOpsQc.vo"]
@@ -250,10 +250,14 @@ MANIFEST_ENTRY = {
             "Gen/ImageOpsT.v traces the ImageBatch methods together with the grid methods they call (data provenance, returned grid, what reaches "
             "F.interpolate) and Coq re-proves lock-step on every traced call; correspondence: executable model of grid AND data vs "
             "Image/ImageBatch methods after every operation of chains <= 3, per-image grids, ramp and random images.",
-    "note": "Partial: the chain theorem is stated over an abstract step relation (the per-operation theorems are its instances; composed chains are "
-            "checked by the correspondence and the implementation-side search); shape_agrees is proved for crop and resize only (other shapes are "
-            "compared in the correspondence); 3-D pad / center crop / center pad are proved; 3-D narrow, ROI and pooling are covered by the per-axis lemmas + "
-            "correspondence, not by separate N-D theorems; Gaussian pre-smoothing enters through oracle tap values + the stencil lemma. REFUTED on the "
+    "note": "Chains: proved for chains of per-axis steps of ANY length and ANY number of axes (C04_steps_affine, C04_coef_phi), at world level "
+            "for D in {2,3} (C04_ramp_chain_world) with lock-step of the derived grids composing along the chain (C04_lock_trans, C04_lock_resize / "
+            "resample / crop / pool); the data operations of the executable model are proved to BE those chains (C04_d_*_steps*; exact for the "
+            "crop family and pooling, same shape and values for the interpolating ones). shape_agrees is proved for crop, pad, center crop / pad, "
+            "narrow, region of interest, pooling, resize, resample, downsample (all axes, no minimum size, Qc instance, any D and level count) and "
+            "upsample with integral float size. Partial: Gaussian pre-smoothing enters through oracle tap values + the stencil lemma; downsample with "
+            "a dims subset / positive min_size and 3-D pad / roi shape lemmas are compared in the correspondence only; float rounding is outside the "
+            "exact model. REFUTED on the "
             "code (faithful model, vm_compute witness + implementation replay, known findings): upsample after a fractional-size downsample "
             "doubles the tensor shape while the grid restores the original size; avg_pool with a tuple kernel reads it in opposite orders for "
             "data and grid (recorded by ok_pool_aniso). Repaired in /repo and now part of the positive statements / correspondence: same-shape "
